@@ -403,6 +403,7 @@ func c17PeerRole(c *Ctx, isEquip, active bool) {
 	c17PeerOutbound(c, e, tag)
 	c17PeerForwardSameHeader(c, e, tag)
 	c17PeerInbound(c, e, tag)
+	c18RetransmitRole(c, e, tag) // retransmissions incl. block 0, and a slow line with every gap below T1 (c18_retransmit.go)
 	if st := e.conn.State(); st != hsms.SelectedState {
 		c.Violate("property", "link-taken-down", fmt.Sprintf("connection state %v after the scripted exchange (%s)", st, tag), map[string]any{"role": tag, "line": e.peer.lineLog})
 	}
@@ -625,7 +626,9 @@ func c17PeerInbound(c *Ctx, e *s1Endpoint, tag string) {
 	add(blk(h4, 1, false, item(2, 0x41)), "hf-1")
 	add(blk(h4b, 2, true, item(2, 0x42)), "hf-wrong-field")
 	// 5. lone block 0 with E; block 0 without E
-	add(blk(mk(4, 1, false), 0, true, item(4, 0x51)), "block0-E")
+	b0 := blk(mk(4, 1, false), 0, true, item(4, 0x51))
+	add(b0, "block0-E")
+	add(b0, "duplicate-of-block0-E") // after seeded change C18g-2
 	add(blk(mk(4, 3, false), 0, false, item(4, 0x52)), "block0-noE")
 	// 6. empty-body single block, and a final sentinel two-block message
 	add(blk(mk(5, 1, false), 1, true, nil), "header-only")
